@@ -43,6 +43,12 @@
 //!   any two sockets on one port number of two local hosts); every remote is exercised with a tcp / udp
 //!   scenario as above, one after the other or all at the same time; an entry point that the running client
 //!   never opens is a violation with a key of its own (`multi-remote:<kind>:entry-point-never-opened`).
+//! * many: many connections open at once (many.rs): through ONE client and ONE entry point (fixed TCP remote, SOCKS5
+//!   CONNECT, HTTP CONNECT, Unix socket) 17 .. 300 local connections are opened and all kept open; the target must
+//!   accept as many; every connection, the last-opened like the first, then carries two short tokens of its own to the
+//!   target and back (one connection after the other in a random order, then all at once); then half are closed by
+//!   the local client and half by the target, every close seen at the other end (`many-open:<entry>:connection-not-served`,
+//!   `:wrong-bytes`, `:close-not-propagated`).
 //! * maps: the client's two UDP maps against the Lean model under the paused clock (maps.rs).
 //!
 //! Every wait is bounded; a hang is a failure.  A failing scenario is run again on its own in a
@@ -50,6 +56,7 @@
 //! listed in the notes.
 
 mod io;
+mod many;
 mod maps;
 mod multi;
 mod tcp;
@@ -57,6 +64,7 @@ mod udp;
 mod world;
 
 use io::Chunk;
+use many::{ManyOutcome, ManyScn};
 use multi::{MultiOutcome, MultiScn};
 use pvhf::{Args, Driver, FailKind, Report, Rng, Tier, Value, fnv, json};
 use std::sync::Arc;
@@ -74,18 +82,28 @@ enum Scn {
     Udp(UdpScn),
     /// one client with a set of remotes of its own, every remote exercised (a world of its own)
     Multi(MultiScn),
+    /// one client, one entry point, many connections held open at the same time (a world of its own)
+    Many(ManyScn),
 }
 
 impl Scn {
+    /// brings its own client: a world (and a job) of its own
+    fn own_world(&self) -> bool {
+        matches!(self, Scn::Multi(_) | Scn::Many(_))
+    }
     fn line(&self) -> String {
         match self {
             Scn::Tcp(v) => v.iter().map(TcpScn::line).collect::<Vec<_>>().join(" | "),
             Scn::Udp(u) => u.line(),
             Scn::Multi(m) => m.line(),
+            Scn::Many(m) => m.line(),
         }
     }
     fn parse(line: &str) -> Option<Self> {
         let line = line.trim();
+        if line.starts_with("many") {
+            return ManyScn::parse(line).map(Scn::Many);
+        }
         if line.starts_with("multi") {
             return MultiScn::parse(line).map(Scn::Multi);
         }
@@ -102,6 +120,7 @@ enum Outcome {
     Tcp(Vec<ConnObs>, usize),
     Udp(UdpOutcome),
     Multi(MultiOutcome),
+    Many(ManyOutcome),
     Infra(String),
 }
 
@@ -173,6 +192,7 @@ fn judge(sc: &Scn, out: &Outcome) -> Vec<(String, String)> {
                 .collect()
         }
         (Scn::Multi(m), Outcome::Multi(o)) => multi::judge_multi(m, o).into_iter().map(|(_, k, d)| (k, format!("{d}  [{}]", m.line()))).collect(),
+        (Scn::Many(m), Outcome::Many(o)) => many::judge_many(m, o),
         _ => vec![],
     }
 }
@@ -209,7 +229,21 @@ async fn run_in_world(w: Arc<World>, sc: &Scn) -> Outcome {
                 None => Outcome::Udp(o),
             }
         }
-        Scn::Multi(_) => Outcome::Infra("a multi-remote scenario has a world of its own".into()),
+        Scn::Multi(_) | Scn::Many(_) => Outcome::Infra("a scenario of this family has a world of its own".into()),
+    }
+}
+
+async fn run_own_world(sc: &Scn) -> Outcome {
+    match sc {
+        Scn::Multi(m) => run_multi_scn(m).await,
+        Scn::Many(m) => {
+            let o = many::run_many(m).await;
+            match o.infra.clone() {
+                Some(e) => Outcome::Infra(e),
+                None => Outcome::Many(o),
+            }
+        }
+        _ => Outcome::Infra("not a scenario with a world of its own".into()),
     }
 }
 
@@ -231,12 +265,10 @@ fn run_world(scs: &[Scn], multi_thread: bool) -> Vec<Outcome> {
     .expect("runtime");
     let outs = rt.block_on(async {
         // the scenarios of the several-remotes family bring their own client: a world each
-        if scs.iter().all(|s| matches!(s, Scn::Multi(_))) {
+        if scs.iter().all(Scn::own_world) {
             let mut outs = vec![];
             for sc in scs {
-                if let Scn::Multi(m) = sc {
-                    outs.push(run_multi_scn(m).await);
-                }
+                outs.push(run_own_world(sc).await);
             }
             return outs;
         }
@@ -256,8 +288,8 @@ fn run_world(scs: &[Scn], multi_thread: bool) -> Vec<Outcome> {
         };
         let mut outs = vec![];
         for sc in scs {
-            if let Scn::Multi(m) = sc {
-                outs.push(run_multi_scn(m).await);
+            if sc.own_world() {
+                outs.push(run_own_world(sc).await);
                 continue;
             }
             if let Some(r) = w.client_result.lock().unwrap().clone() {
@@ -1002,6 +1034,15 @@ fn outcome_json(o: &Outcome) -> Value {
     match o {
         Outcome::Infra(e) => json!({"infra": e}),
         Outcome::Udp(u) => json!({"exchanges": u.exchanges, "replies_ok": u.replies_ok, "violations": u.bad.iter().map(|(k, d)| format!("{k}: {d}")).collect::<Vec<_>>()}),
+        Outcome::Many(m) => json!({
+            "client_remote": m.spec, "tunnel_warm_up": m.warm_up,
+            "local_connections_opened": m.opened, "accepted_by_the_target": m.accepted, "carried_both_messages": m.served,
+            "closed_by_the_local_client": m.closed_by_client, "closed_by_the_target": m.closed_by_target, "closes_seen_at_the_other_end": m.closes_seen,
+            "closes_read_as_an_error_by_the_target": m.target_read_errors,
+            "open_ms": m.open_ms, "talk_ms": m.talk_ms, "close_ms": m.close_ms, "slowest_answer_ms": m.slowest_answer_ms,
+            "client_ended": m.ended,
+            "violations": m.bad.iter().map(|(k, d)| format!("{k}: {d}")).collect::<Vec<_>>(),
+        }),
         Outcome::Multi(m) => json!({
             "client_remotes": m.specs,
             "entry_points_never_opened": m.never_opened.iter().map(|(i, d)| format!("remote {i}: {d}")).collect::<Vec<_>>(),
@@ -1115,7 +1156,8 @@ datagram on the relay socket of a SOCKS5 association, and long flows: up to 1100
 64 KiB of replies once and three times over, and 2-4 local sockets of one host on ONE SOCKS5 UDP association, at the same time, \
 one after the other, or one closed and a new one going on) or one client with a remote set of its own (1-4 remotes drawn from fixed TCP / fixed UDP / SOCKS / HTTP / Unix \
 socket, in a given order, on 127.0.0.1 / [::1] / 0.0.0.0, port numbers shared between TCP and UDP on one local address and between local hosts where the operating system allows, \
-every remote exercised with such a TCP / UDP scenario) run in real time \
+every remote exercised with such a TCP / UDP scenario) or one client with one entry point through which 17 .. 300 local connections are opened and all held open, each \
+then carrying tokens of its own to the target and back, half closed by the local client and half by the target, run in real time \
 through the real client_main_inner and the real server on loopback; plus map-operation sequences on the real client maps under the \
 paused clock compared with the Lean model. Non-trivial = at least one byte / one datagram crossed the tunnel, or a close / refusal \
 was propagated; distinct by scenario text";
@@ -1199,6 +1241,12 @@ was propagated; distinct by scenario text";
         scs.extend(multi::multi_pass(&mut rng.fork(8), args.tier).into_iter().map(Scn::Multi));
     }
     let n_multi_gen = scs.len() - n_before_multi;
+    // many connections open at once (a sub-stream of its own: nothing above changes)
+    let n_before_many = scs.len();
+    if only.as_deref() != Some("maps") && !args.flag("--no-many") {
+        scs.extend(many::many_pass(&mut rng.fork(9), args.tier).into_iter().map(Scn::Many));
+    }
+    let n_many_gen = scs.len() - n_before_many;
     // the idle scenario (forwarder time-out on the server, pruning on the client) and the one-way streams
     let mut waiting: Vec<Scn> = vec![];
     if only.as_deref() != Some("maps") && !args.flag("--no-idle") {
@@ -1225,7 +1273,7 @@ was propagated; distinct by scenario text";
     let mut long: Vec<usize> = (0..scs.len()).filter(|i| is_long(&scs[*i])).collect();
     let expected_ms = |s: &Scn| match s {
         Scn::Udp(u) => u.idle_ms + u.oneway.as_ref().map_or(0, |o| o.ms + o.at_ms.map_or(0, |_| 5000)),
-        Scn::Tcp(_) | Scn::Multi(_) => 0,
+        Scn::Tcp(_) | Scn::Multi(_) | Scn::Many(_) => 0,
     };
     long.sort_by_key(|i| std::cmp::Reverse(expected_ms(&scs[*i])));
     for (k, i) in long.iter().enumerate() {
@@ -1233,13 +1281,17 @@ was propagated; distinct by scenario text";
         jobs.push((vec![*i], !(args.tier == Tier::Thorough && k % 5 == 4)));
     }
     let n_long = long.len();
-    let short: Vec<usize> = (0..scs.len()).filter(|i| !is_long(&scs[*i]) && !matches!(scs[*i], Scn::Multi(_))).collect();
+    let short: Vec<usize> = (0..scs.len()).filter(|i| !is_long(&scs[*i]) && !scs[*i].own_world()).collect();
     for (wi, chunk) in short.chunks(per_world).enumerate() {
         jobs.push((chunk.to_vec(), wi % 3 != 2));
     }
     // a scenario of the several-remotes family builds its own client anyway: a job each, both runtime flavours
     for (k, i) in (0..scs.len()).filter(|i| matches!(scs[*i], Scn::Multi(_))).enumerate() {
         jobs.push((vec![i], k % 3 != 2));
+    }
+    // so does a scenario of the many-connections family
+    for (k, i) in (0..scs.len()).filter(|i| matches!(scs[*i], Scn::Many(_))).enumerate() {
+        jobs.push((vec![i], k % 3 != 1));
     }
     let threads = (width + n_long).min(jobs.len()).max(1);
     // the server part of the model on the idle scenario: is a datagram for a finished forwarder forwarded or dropped?
@@ -1288,6 +1340,8 @@ was propagated; distinct by scenario text";
     let (mut sh_scs, mut sh_sockets, mut sh_renewed, mut sh_exchanges, mut sh_replies) = (0usize, 0usize, 0usize, 0usize, 0usize);
     // several remotes on one client: scenarios, remotes, scenarios with a shared port number, of them TCP and UDP on one local address; what went through
     let (mut mr_scs, mut mr_remotes, mut mr_shared, mut mr_one_addr, mut mr_conns, mut mr_bytes, mut mr_dgrams, mut mr_replies) = (0usize, 0usize, 0usize, 0usize, 0usize, 0usize, 0usize, 0usize);
+    // many connections open at once: scenarios, connections, served, closes seen, largest N, slowest answer, closes read as an error by the target
+    let (mut mo_scs, mut mo_conns, mut mo_served, mut mo_closes, mut mo_max_n, mut mo_slowest, mut mo_resets) = (0usize, 0usize, 0usize, 0usize, 0usize, 0u64, 0usize);
     // dialogues after a half-close: messages awaited, slowest confirmation
     let (mut hold_msgs, mut hold_max_ms) = (0usize, 0u64);
     // late-reading peers: connections, bytes read by the late reader, of them complete with a clean end-of-stream
@@ -1328,7 +1382,7 @@ was propagated; distinct by scenario text";
                 }
             }
         }
-        if !bad.is_empty() && (is_long(sc) || matches!(sc, Scn::Udp(u) if u.junk.is_some()) || matches!(sc, Scn::Multi(_))) && bad.iter().all(|(k, _)| confirmed_keys.contains(k)) {
+        if !bad.is_empty() && (is_long(sc) || matches!(sc, Scn::Udp(u) if u.junk.is_some()) || sc.own_world()) && bad.iter().all(|(k, _)| confirmed_keys.contains(k)) {
             // a scenario that mostly waits (or a junk scenario: every lost datagram is waited for), failing in a way
             // that has already been confirmed and reported on another scenario: not run again
             same_again.push(format!("{} :: {}", bad[0].0, sc.line()));
@@ -1390,6 +1444,7 @@ was propagated; distinct by scenario text";
             Outcome::Tcp(v, _) => v.iter().any(|c| c.target_connected || c.client.saw_eof || c.handshake_fail.is_some()),
             Outcome::Udp(u) => u.replies_ok > 0,
             Outcome::Multi(m) => multi::nontrivial(m),
+            Outcome::Many(m) => many::nontrivial(m),
             Outcome::Infra(_) => false,
         };
         rep.case(nontrivial.then(|| fnv(sc.line().as_bytes())));
@@ -1529,6 +1584,22 @@ was propagated; distinct by scenario text";
                 hdr_client += o.hdr_client;
                 hdr_other += o.hdr_other;
             }
+            (Scn::Many(m), Outcome::Many(o)) => {
+                rep.count("many-open");
+                for b in m.buckets() {
+                    rep.count(&b);
+                }
+                rep.count_n("many-open/connections-held-open", o.opened as u64);
+                rep.count_n("many-open/connections-that-carried-both-messages", o.served as u64);
+                rep.count_n("many-open/closes-seen-at-the-other-end", o.closes_seen as u64);
+                mo_scs += 1;
+                mo_conns += o.opened;
+                mo_served += o.served;
+                mo_closes += o.closes_seen;
+                mo_max_n = mo_max_n.max(m.n);
+                mo_slowest = mo_slowest.max(o.slowest_answer_ms);
+                mo_resets += o.target_read_errors;
+            }
             (Scn::Multi(m), Outcome::Multi(o)) => {
                 rep.count("multi-remote");
                 for b in m.buckets() {
@@ -1564,7 +1635,7 @@ was propagated; distinct by scenario text";
         }
     }
     rep.notes.push(format!(
-        "{} end-to-end scenarios ({n_corpus} corpus, {n_fixed} fixed pass, {n_shared_gen} several-sockets-on-one-association, {n_multi_gen} several-remotes-on-one-client, rest random and waiting), {} worlds, width {width}; {reruns} failing scenario(s) re-run alone, {} could not be reproduced; {infra} re-run for infrastructure reasons; {} s",
+        "{} end-to-end scenarios ({n_corpus} corpus, {n_fixed} fixed pass, {n_shared_gen} several-sockets-on-one-association, {n_multi_gen} several-remotes-on-one-client, {n_many_gen} many-connections-open-at-once, rest random and waiting), {} worlds, width {width}; {reruns} failing scenario(s) re-run alone, {} could not be reproduced; {infra} re-run for infrastructure reasons; {} s",
         scs.len(),
         jobs.len(),
         unreproduced.len(),
@@ -1605,6 +1676,10 @@ was propagated; distinct by scenario text";
     rep.notes.push(format!(
         "several remotes on one client: {mr_scs} scenario(s), each ONE real client with a remote set of its own ({mr_remotes} remotes in all; 1-4 per client drawn from fixed TCP / fixed UDP / SOCKS / HTTP / Unix socket, in a given order, on 127.0.0.1 / [::1] / 0.0.0.0), {mr_shared} of them with a port number used by more than one remote ({mr_one_addr}: a TCP listener and a UDP socket on ONE local address, in either order; the others: one port number on two local hosts); every entry point had to be there within {} ms of the first one, and EVERY remote was exercised with an ordinary scenario of its kind, one after the other or all at the same time, judged by the ordinary rules: {mr_conns} connections ({mr_bytes} payload bytes read at either end), {mr_dgrams} datagrams, {mr_replies} replies checked at the socket that sent the request; distribution under multi-remote/",
         world::OPEN_GRACE.as_millis()
+    ));
+    rep.notes.push(format!(
+        "many connections open at once: {mo_scs} scenario(s), each ONE real client with one entry point (fixed TCP remote / SOCKS5 CONNECT / HTTP CONNECT / Unix socket) and a target of its own; {mo_conns} local connections opened and all held open (up to {mo_max_n} through one client at the same time), {mo_served} of them carried two tokens of their own to the target and back while all the others stayed open (one connection after the other in a random order, then all at once; slowest answer {mo_slowest} ms, bound {} ms), then half closed by the local client and half by the target: {mo_closes} closes seen at the other end ({mo_resets} read as an error instead of an end-of-stream by the target: noted, not judged)",
+        io::prompt().as_millis()
     ));
     if let Some(d) = &drv {
         rep.notes.push(format!("driver lines: {}", d.lines));
